@@ -839,7 +839,7 @@ func Run(ctx *core.Ctx) {
 	if err != nil {
 		ctx.Fatal("%v", err)
 	}
-	nds := ctx.Pick(120, 1500)
+	nds := ctx.Pick(160, 1500)
 	nw := 12
 	var wg sync.WaitGroup
 	next := make(chan int, nds)
